@@ -26,36 +26,46 @@ def trRes (s : St) (r : Res) : String :=
     | some cn => s!"W{id}:{hex cn.addr}:{if cn.tls then 1 else 0}"
     | none => s!"W{id}:?"
 
-/-- ops: N addr tls cfgOk | C first scheme host keep cfgOk | H first i scheme keep.  `first` = 0 marks a later hop of a redirect
-    chain: it only happens if the previous hop wrote its request. -/
-def trRun : St → Bool → List Bytes → List String → Option (List String)
-  | _, _, [], acc => some acc.reverse
-  | s, _, [78] :: addr :: tls :: cfg :: rest, acc => do
+/-- ops: N addr tls cfgOk | C first scheme host keep cfgOk | H first i scheme keep | R scheme keep.
+    `first` = 0 marks a later hop of a redirect chain: it only happens if the previous hop wrote its request.
+    R is a further ATTEMPT of the same HostClient.Do call (the previous attempt failed after its write and a retry
+    hook rewrote the request): one more `hcDo` on the HostClient the previous op used, only if that op wrote. -/
+def trRun : St → Bool → Option Nat → List Bytes → List String → Option (List String)
+  | _, _, _, [], acc => some acc.reverse
+  | s, _, _, [78] :: addr :: tls :: cfg :: rest, acc => do
     let tls ← trFlag? tls
     let cfg ← trFlag? cfg
-    trRun (step trDialOk s (.newHC addr tls cfg)).1 false rest ("-" :: acc)
-  | s, prev, [67] :: first :: scheme :: host :: keep :: cfg :: rest, acc => do
+    trRun (step trDialOk s (.newHC addr tls cfg)).1 false none rest ("-" :: acc)
+  | s, prev, last, [67] :: first :: scheme :: host :: keep :: cfg :: rest, acc => do
     let first ← trFlag? first
     let keep ← trFlag? keep
     let cfg ← trFlag? cfg
-    if !first && !prev then trRun s false rest ("S" :: acc)
+    if !first && !prev then trRun s false last rest ("S" :: acc)
     else
       let r := clientDo trDialOk s scheme host keep cfg
-      trRun r.1 (match r.2 with | .wrote _ => true | _ => false) rest (trRes r.1 r.2 :: acc)
-  | s, prev, [72] :: first :: i :: scheme :: keep :: rest, acc => do
+      let used := lookup host (if isHTTPS scheme then r.1.ms else r.1.m)
+      trRun r.1 (match r.2 with | .wrote _ => true | _ => false) used rest (trRes r.1 r.2 :: acc)
+  | s, prev, last, [72] :: first :: i :: scheme :: keep :: rest, acc => do
     let first ← trFlag? first
     let keep ← trFlag? keep
     let i ← natOfDec? i
-    if !first && !prev then trRun s false rest ("S" :: acc)
+    if !first && !prev then trRun s false last rest ("S" :: acc)
     else
       let r := hcDo trDialOk s i scheme keep
-      trRun r.1 (match r.2 with | .wrote _ => true | _ => false) rest (trRes r.1 r.2 :: acc)
-  | _, _, _, _ => none
-termination_by _ _ l _ => l.length
+      trRun r.1 (match r.2 with | .wrote _ => true | _ => false) (some i) rest (trRes r.1 r.2 :: acc)
+  | s, prev, last, [82] :: scheme :: keep :: rest, acc => do
+    let keep ← trFlag? keep
+    match prev, last with
+    | true, some i =>
+      let r := hcDo trDialOk s i scheme keep
+      trRun r.1 (match r.2 with | .wrote _ => true | _ => false) (some i) rest (trRes r.1 r.2 :: acc)
+    | _, _ => trRun s false last rest ("S" :: acc)
+  | _, _, _, _, _ => none
+termination_by _ _ _ l _ => l.length
 
 def opsTlsRoute (op : String) (a : List Bytes) : Option String :=
   match op with
-  | "tlsroute" => (trRun {} false a []).map (",".intercalate ·)
+  | "tlsroute" => (trRun {} false none a []).map (",".intercalate ·)
   | "addmissingport" => match a with
     | [addr, tls] => (trFlag? tls).map fun t => hex (addMissingPort addr t)
     | _ => none
